@@ -44,6 +44,8 @@ func runC15(c *Ctx) {
 	_ = rollback
 
 	checkCoupledRollback(c, "C15-R1")
+	// the store side of a (multi-block) disconnect: every block at or above the new tip is detached
+	checkRollbackWalk(c, "C15-R1")
 
 	// ---------- R2 stamp completeness at every SetSyncedTo site ----------
 	nSites := 0
